@@ -522,7 +522,7 @@ void vf_search(const vf::Args& a)
 			                  c.add(vf::Op("pforj", {i0, i0 + len, std::get<2>(t), i0 + std::get<3>(t), len > 3000 ? 1 : 3, std::get<4>(t)}));
 			                  return c;
 		                  });
-		vf::check_cases("pfor_sampled", a.n(80, 1500), 100, g, [](const vf::Case& c) {
+		vf::check_cases("pfor_sampled", a.n(80, 800), 100, g, [](const vf::Case& c) {
 			vf::stats().nt(vf::fnv(vf::serialize(c)));
 			vf::stats().cls(c.ops[0].i(1) - c.ops[0].i(0) > 3000 ? "pforj.large" : "pforj.small");
 		});
@@ -536,7 +536,7 @@ void vf_search(const vf::Args& a)
 			                  c.add(vf::Op("thr", {std::get<0>(t), std::get<1>(t), std::get<2>(t), std::get<3>(t), reps, std::get<4>(t)}));
 			                  return c;
 		                  });
-		vf::check_cases("thread", a.n(150, 2500), 100, g, [](const vf::Case& c) {
+		vf::check_cases("thread", a.n(150, 1200), 100, g, [](const vf::Case& c) {
 			auto& o = c.ops[0];
 			bool nontrivial = o.i(1) % 4 == 0 || (o.i(1) % 4 == 2 && o.i(2) < 200) || o.i(0) == 1 || o.i(0) == 2 || o.i(0) >= 4;
 			if (nontrivial)
@@ -585,7 +585,7 @@ void vf_search(const vf::Args& a)
 			                  c.add(vf::Op(std::get<0>(t), {std::get<1>(t), std::get<2>(t), std::get<3>(t), std::get<4>(t)}));
 			                  return c;
 		                  });
-		vf::check_cases("sync", a.n(100, 2000), 100, g, [](const vf::Case& c) {
+		vf::check_cases("sync", a.n(100, 1200), 100, g, [](const vf::Case& c) {
 			vf::stats().nt(vf::fnv(vf::serialize(c)));
 			vf::stats().cls("sync." + c.ops[0].name);
 		});
